@@ -400,6 +400,13 @@ Theorem C10_share_vs_cut_resolver_membership : forall C D L aa orig fdC BC fdD B
          ShareCut.pi_cut C D orig y = CutModel.phi D (orig x) /\
          node_get g' y (S "fragid") = Some (VList l) /\ In (VInt (Z.of_nat (CutModel.owner C x))) l).
 Proof. exact ShareCutTotal.share_vs_cut_resolver_membership. Qed.
+(** the count: the squashed graph has as many atoms as the molecule, the bonded graph as many as the fragments
+    contain together -- |flat C| - |flat D| atoms fewer, one per shared pair when no pair is redundant *)
+Theorem C10_share_vs_cut_count : forall C D L aa gs' gd orig g', CutModel.wf_cut C -> CutModel.wf_cut D ->
+  CutSkeleton.skeleton C aa gs' -> CutSkeleton.skeleton D aa gd -> GraphAdj.adj_nodup gs' -> ShareCut.expands C D L orig ->
+  squash_atoms (gmap (bangify L) gs') = Ok g' ->
+  length g' = length (CutModel.flat D) /\ length (gmap (bangify L) gs') = length (CutModel.flat C).
+Proof. exact ShareCutTotal.share_vs_cut_count. Qed.
 Theorem C10_same_payload_example : ShareCutTotal.same_payload ShareCutExamples.exC ShareCutExamples.exD ShareCutExamples.ex_orig.
 Proof. exact ShareCutExamples.ex_same_payload. Qed.
 (** the extra hypotheses hold on the example of C10_share_vs_cut_resolver_nonvacuous, at both levels *)
@@ -488,5 +495,6 @@ Print Assumptions C10_wf_dict_decidable.
 Print Assumptions C10_squash_keeps_attrs.
 Print Assumptions C10_share_vs_cut_resolver_atoms.
 Print Assumptions C10_same_payload_example.
+Print Assumptions C10_share_vs_cut_count.
 Print Assumptions C10_share_vs_cut_resolver_membership.
 Print Assumptions C10_share_vs_cut_resolver_total_hypotheses.
